@@ -5,7 +5,7 @@ CONSTANTS
   Names = {"A", "B"}
   SetNames = {0, 1}
   Classes = {"CHANNEL", "ZONE"}
-  OriginRefs = {0, 5}
+  OriginRefs = {0, 1, 5}
   RefFrom = "NONE"
   RefTo = "NONE"
   HeaderShare = FALSE
